@@ -211,7 +211,9 @@ def decode_strict(data: bytes):
         q += nbytes
         bits = bytes_to_bits(body)
         if d2 & 1:
-            need(nbytes >= 1 and body[-1] != 0, 'missing completion tag')
+            # boc.cpp get_bits: `if (!(last & 0x7f)) error "overlong encoding"` - a last byte of 0x00 or 0x80 is not a valid
+            # completion (a bit string that ends on a byte boundary is written with an even d2)
+            need(nbytes >= 1 and body[-1] & 0x7f != 0, 'missing completion tag / overlong encoding')
             bits = bits[:bits.rindex('1')]
         refs = []
         for _ in range(nrefs):
